@@ -718,7 +718,7 @@ for _m in [
     del _sp['name']
     _ISET.append(_sp)
 # only the methods whose tie theorem exists are registered (callees come before their callers)
-_ISET_TIED = ('_add_dead', '_dead_index_count', '__len__', 'add', '_compact', '_cull', 'remove', 'discard', '_get_real_index')
+_ISET_TIED = ('_add_dead', '_dead_index_count', '__len__', 'add', '_compact', '_cull', 'remove', 'discard', '_get_real_index', 'pop')
 _ISET = [_sp for _sp in _ISET if _sp['py'] in _ISET_TIED]
 INDEXED_SET['methods'] = _ISET
 SPECS['C11'] = SPECS['C11'] + _ISET
